@@ -37,9 +37,16 @@ def check_kernel_choice(ctx, ck, rule='R-DEP.kernel-choice'):
     from ..symx import SymExec
     m = ctx.model
     n = 0
+    from ..rules import self_closure
+    cands = {}
     for q in ('mininec.Mininec.scalar_potential', 'mininec.Mininec.vector_potential'):
-        f = m.func(q)
-        kname = f.params[1] if len(f.params) > 1 else 'k'
+        for g_ in self_closure(ctx, m.func(q)):
+            # (the function that hands psi its `exact` mask: the potentials themselves or a helper they share)
+            if any(isinstance(c_, ast.Call) and isinstance(c_.func, ast.Attribute) and c_.func.attr == 'psi' and
+                   any(k_.arg == 'exact' for k_ in c_.keywords) for c_ in walk_no_nested(g_.node)):
+                cands[g_.qual] = g_
+    for q, f in sorted(cands.items()):
+        kname = 'k' if 'k' in f.params else (f.params[1] if len(f.params) > 1 else 'k')
         bases = {}
         for p_ in SymExec(ctx, f, depth=3, max_paths=4000).run():
             if p_.end == 'raise':
@@ -263,11 +270,13 @@ def run(ctx, ck):
           'closure of the matrix fill (%d functions) never reads an object\'s is_ground' % len(seen_))
     # the kernel is chosen by geometry alone: the image term is the free-space term of the mirrored segment
     ck.rule('R-DEP.kernel-choice', 'which pairs are integrated with the exact kernel does not depend on the image index k')
-    ck.floor('potential calls with a kernel selection', check_kernel_choice(ctx, ck), 2)
+    ck.floor('potential calls with a kernel selection', check_kernel_choice(ctx, ck), 1)
     # the per-half weights of the far field treat both halves of a grounded pulse alike
     ck.rule('R-SYM.half-weights', 'a store into the per-half far-field weights that picks the half by a literal index is made for both halves')
     from ._sym import check_half_weight_symmetry
-    ck.floor('per-half weight arrays in the far field', check_half_weight_symmetry(ctx, ck), 2)
+    # (no floor: a far field that builds its weights with np.where has no such array; the positive example of the
+    # catalogue shows on every thorough run that the rule fires on today's layout)
+    ck.info('per_half_weight_arrays_in_the_far_field', check_half_weight_symmetry(ctx, ck))
     ck.undecided += ['numeric equality with the mirrored free-space model', 'gain 3.0103 dB above the free-space pair']
 
 
